@@ -22,6 +22,10 @@ EXTENDS Dual, Arr, TLC
 None    == [none |-> TRUE]
 Some(x) == [none |-> FALSE, v |-> x]
 IsNone(o) == o.none
+\* a gradient slot whose contents the properties do not pin down (see MkView: a disconnected view that is used again
+\* as the parent of a new view shows its own, partial, back-propagated gradient); it is never compared
+Unspec  == [none |-> FALSE, u |-> TRUE]
+IsUnspec(o) == ~o.none /\ "u" \in DOMAIN o
 
 Has(r, f) == f \in DOMAIN r
 Kw(r, f, dflt) == IF f \in DOMAIN r THEN r[f] ELSE dflt
@@ -101,8 +105,10 @@ ResConst(st, os, kw) ==
 \* detaches from its base at that moment.
 NullOnUse(st, hs) ==
   [st EXCEPT !.g = [h \in DOMAIN @ |-> IF h \in hs /\ st.H[h].base = 0 THEN None ELSE @[h]],
+             \* (the operand's cached view-gradient is dropped as well, whether or not it detaches)
              !.H = [h \in DOMAIN @ |-> IF h \in hs /\ @[h].base # 0 /\ ~HasCr(st, h)
-                                       THEN [@[h] EXCEPT !.base = 0, !.par = 0, !.gc = 0] ELSE @[h]]]
+                                       THEN [@[h] EXCEPT !.base = 0, !.par = 0, !.gc = 0]
+                                       ELSE IF h \in hs /\ @[h].base # 0 THEN [@[h] EXCEPT !.gc = 0] ELSE @[h]]]
 
 \* result of a non-view operation: fresh buffer, fresh node, fresh handle.
 \* With tracking off (C15) nothing is recorded: the result is a fresh leaf (no creator, no parents), operands
@@ -141,6 +147,19 @@ ElementwiseLayout(st, os, sh) ==
               ost == KOrderStrides(sh, perm)
           IN [p \in 1..Size(sh) |-> LET oi == Unravel(p, sh) IN 1 + SeqSum([a \in 1..n |-> oi[a] * ost[a]])]
 
+\* memory layout of the output of a reduction (ufunc.reduce allocates its output through the same iterator: the kept
+\* axes keep the relative memory order they have in the operand)
+ReduceLayout(st, o, sh, axes, keepdims) ==
+  LET n == Len(sh)
+      keepsh == [a \in 1..n |-> IF (a - 1) \in RangeOf(axes) THEN 1 ELSE sh[a]]
+      osh == ReduceShape(sh, axes, keepdims)
+  IN IF n < 2 \/ Size(osh) < 2 \/ ~IsH(o) THEN Iota(Size(osh))
+     ELSE LET ist == AlignedStrides(st.H[o.h].imap, sh, n)
+              perm == KOrderPerm(n, <<ist>>)
+              kst == KOrderStrides(keepsh, perm)
+              kept == IF keepdims THEN [a \in 1..n |-> a] ELSE ReduceKeep(sh, axes)
+          IN [p \in 1..Size(osh) |-> LET oi == Unravel(p, osh) IN 1 + SeqSum([j \in 1..Len(osh) |-> oi[j] * kst[kept[j]]])]
+
 \* result of a view operation on tensor handle a: same buffer, gathered index map
 MkViewUntracked(st, s, a, sh, gth) ==      \* shares the memory, but no base / creator / registration
   LET src == st.H[a]
@@ -156,7 +175,9 @@ MkView(st, s, a, sh, gth) ==
       \* a stale view used as the parent of a new view detaches first and becomes the base
       stale == src.base # 0 /\ ~HasCr(st, a)
       stk == [st EXCEPT !.kf = IF a \in st.pend THEN @ \cup {"F-C09-1"} ELSE @]
-      st0 == IF stale THEN [stk EXCEPT !.H[a].base = 0, !.H[a].par = 0, !.H[a].gc = 0] ELSE stk
+      \* ... and from then on `.grad` of the detached tensor reads its OWN slot: what was back-propagated through it alone
+      \* in the epoch that ended (not the total derivative its base holds) - a value the properties do not speak about
+      st0 == IF stale THEN [stk EXCEPT !.H[a].base = 0, !.H[a].par = 0, !.H[a].gc = 0, !.g[a] = Unspec] ELSE stk
       base == IF st0.H[a].base = 0 THEN a ELSE st0.H[a].base
       st1 == NewNode(st0, <<src.node>>, const, TRUE)
       st2 == PutH(st1, s.h, MkH("t", src.buf, Gather(src.imap, gth), sh, const, Len(st1.N), base, a))
@@ -350,8 +371,9 @@ ApplyOp(st, s) ==
     [] Red(f) ->
         LET sh == OpSh(st, os[1]) c == OpCells(st, os[1]) ax == RedAxes(kw, sh)
             grp == ReduceGroups(sh, ax)
-        IN MkResult(st, s, ReduceShape(sh, ax, Kw(kw, "keepdims", FALSE)),
-                    [p \in 1..Len(grp) |-> RedK(f, Gather(c, grp[p]), kw)], os)
+        IN MkResultL(st, s, ReduceShape(sh, ax, Kw(kw, "keepdims", FALSE)),
+                     [p \in 1..Len(grp) |-> RedK(f, Gather(c, grp[p]), kw)], os,
+                     ReduceLayout(st, os[1], sh, ax, Kw(kw, "keepdims", FALSE)))
     [] f = "matmul" ->
         LET sa == OpSh(st, os[1]) sb == OpSh(st, os[2]) ca == OpCells(st, os[1]) cb == OpCells(st, os[2])
             tm == MatmulTerms(sa, sb)
@@ -532,23 +554,27 @@ UpDiff(st, n) == {n} \cup (IF st.N[n].cr /\ ~st.N[n].const
 CacheValid(st, h) == LET r == st.H[h] IN r.gc # 0 /\ r.gc = st.gen[r.base]
 NeedsParent(st, h) == LET r == st.H[h] IN
   r.base # 0 /\ ~r.const /\ ~IsNone(st.g[r.base]) /\ ~CacheValid(st, h) /\ HasCr(st, h)
-RECURSIVE GradAvail(_, _)
-GradAvail(st, h) ==
+\* the owner whose gradient array a read of h.grad derives from (0: the read yields None)
+RECURSIVE GradSrc(_, _)
+GradSrc(st, h) ==
   LET r == st.H[h] IN
-  IF r.const THEN FALSE
-  ELSE IF r.base = 0 THEN ~IsNone(st.g[h])
-  ELSE IF IsNone(st.g[r.base]) THEN FALSE
-  ELSE IF CacheValid(st, h) THEN TRUE
-  ELSE IF ~HasCr(st, h) \/ r.par = 0 THEN FALSE
-  ELSE GradAvail(st, r.par)
+  IF r.const THEN 0
+  ELSE IF r.base = 0 THEN (IF IsNone(st.g[h]) THEN 0 ELSE h)
+  ELSE IF IsNone(st.g[r.base]) THEN 0
+  ELSE IF CacheValid(st, h) THEN r.base
+  ELSE IF ~HasCr(st, h) \/ r.par = 0 THEN 0
+  ELSE GradSrc(st, r.par)
+GradAvail(st, h) == GradSrc(st, h) # 0
 \* Reading `.grad` is not free of effects: every view on the chain that had to be recomputed caches the result.
 \* (The harness reads the gradient of every live handle after every statement.)
 RECURSIVE GradChain(_, _)
 GradChain(st, h) == {h} \cup (IF NeedsParent(st, h) /\ st.H[h].par # 0 THEN GradChain(st, st.H[h].par) ELSE {})
 ReadGrads(st, hs) ==
   LET touched == UNION {GradChain(st, h) : h \in hs} IN
+  \* what is cached is a view of the SOURCE's gradient array; the validity test (CacheValid) compares it with the
+  \* array of the tensor's `base` - the two differ when a parent on the chain has detached from the common base
   [st EXCEPT !.H = [h \in DOMAIN st.H |-> IF h \in touched /\ st.H[h].base # 0 /\ GradAvail(st, h)
-                                           THEN [st.H[h] EXCEPT !.gc = st.gen[st.H[h].base]] ELSE st.H[h]]]
+                                           THEN [st.H[h] EXCEPT !.gc = st.gen[GradSrc(st, h)]] ELSE st.H[h]]]
 
 \* clear_graph from node set ns: creators dropped, view registrations dropped; a view that loses its creator
 \* caches ("pulls") the current view of its base's gradient
@@ -557,7 +583,7 @@ ClearNodes(st, ns) ==
       \* (Tensor.clear_graph reads self.grad before dropping the creator; children are visited before parents)
       newgc(h) == LET r == st.H[h] IN
                   IF r.base # 0 /\ st.N[r.node].cr
-                  THEN (IF GradAvail(st, h) THEN st.gen[r.base] ELSE 0)
+                  THEN (IF GradAvail(st, h) THEN st.gen[GradSrc(st, h)] ELSE 0)
                   ELSE r.gc
       st1 == [st EXCEPT !.N = [n \in DOMAIN @ |-> IF n \in ns THEN [@[n] EXCEPT !.cr = FALSE, !.clr = TRUE, !.clrAt = st.clk] ELSE @[n]],
                         !.H = [h \in DOMAIN @ |-> IF h \in hs THEN [@[h] EXCEPT !.kids = {}, !.gc = newgc(h)] ELSE @[h]]]
@@ -617,10 +643,10 @@ ApplyBackward(st, s) ==
 \* ------------------------------------------------------------------ projection (what a user can observe)
 \* gradient read through the public `.grad` property
 ObsGrad(st, h) ==
-  LET r == st.H[h] IN
-  IF ~GradAvail(st, h) THEN None
-  ELSE IF r.base = 0 THEN Some([k \in 1..Len(r.imap) |-> st.g[h].v[r.imap[k]]])
-  ELSE Some([k \in 1..Len(r.imap) |-> st.g[r.base].v[r.imap[k]]])      \* owner's gradient is stored per buffer cell
+  LET r == st.H[h] src == GradSrc(st, h) IN
+  IF src = 0 THEN None
+  ELSE IF IsUnspec(st.g[src]) THEN Unspec
+  ELSE Some([k \in 1..Len(r.imap) |-> st.g[src].v[r.imap[k]]])      \* an owner's gradient is stored per buffer cell
 ObsBase(st, h) == LET b == st.H[h].base IN IF b # 0 /\ ~st.H[b].live THEN -1 ELSE b
 \* ------------------------------------------------------------------ other statements
 \* (clear_graph has no staleness guard: with a pending F-C09-1 consumer the traversal may cross into the mutated
@@ -640,16 +666,19 @@ ApplyCopy(st, s) ==
       st1 == NewBuf(st, [c \in 1..n |-> DC(vals[inv[c]])], src.const)
       st2 == NewNodeB(st1, <<>>, src.const, FALSE, Len(st1.mem))
       st3 == PutH(st2, s.h, MkH("t", Len(st1.mem), lay, src.sh, src.const, Len(st2.N), 0, 0))
-      \* Tensor.copy copies the tensor's OWN gradient slot: a view's own slot is empty
-      og == IF src.base = 0 /\ ~src.const THEN st.g[a] ELSE None
+      \* Tensor.copy copies the tensor's OWN gradient slot.  For a view that is not what `.grad` shows (the matching
+      \* view of the base's gradient) but what was back-propagated through the view tensor alone - possibly nothing:
+      \* the properties do not say which gradient a copy of a view carries, so it is left unspecified
+      og == IF src.const THEN None ELSE IF src.base = 0 THEN st.g[a] ELSE Unspec
   IN IF IsNone(og) THEN st3
+     ELSE IF IsUnspec(og) THEN [st3 EXCEPT !.g[s.h] = Unspec]
      ELSE [st3 EXCEPT !.g[s.h] = Some([c \in 1..n |-> og.v[src.imap[inv[c]]]]), !.gen[s.h] = st.ngen + 1, !.ngen = @ + 2]
 \* the user edits a gradient array in place:  h.grad[ix] = c   (C12: aliasing of gradients)
 ApplyEditGrad(st, s) ==
   LET r == Root(st, s.h) hr == st.H[s.h]
       ig == IndexGather(s.ix, hr.sh)
       cells == {hr.imap[ig[k]] : k \in 1..Len(ig)}
-  IN IF IsNone(ObsGrad(st, s.h)) THEN st
+  IN IF IsNone(ObsGrad(st, s.h)) \/ IsUnspec(ObsGrad(st, s.h)) THEN st
      ELSE [st EXCEPT !.g[r] = Some([c \in 1..Len(@.v) |-> IF c \in cells THEN s.c ELSE @.v[c]])]
 \* t.shape = newshape : in-place reshape of ONE tensor (its views keep their own shapes); NumPy refuses it when the
 \* new shape cannot be described by strides over the same memory (then the statement is a failing statement)
